@@ -139,12 +139,11 @@ Definition holds_strip (C : Circuit) (ign : list string) (obs : res Circuit) : b
   let clash := existsb (λ n, bool_decide (undot n ∈ dom pruned)) (elements kept) in
   let merge := negb (bool_decide (NoDup (undot <$> elements kept))) in
   match obs with
-  | Raise e => bool_decide (e = ValueError) && clash
+  | Raise e => bool_decide (e = ValueError) && (clash || merge)
   | Ok R =>
     let gR := c_g R in
-    negb clash &&
-    (merge ||
-     bool_decide (c_name R = c_name C) && bool_decide (c_bbs R = ∅) &&
+    negb clash && negb merge &&      (* every kept pin is exposed under its own name *)
+    (bool_decide (c_name R = c_name C) && bool_decide (c_bbs R = ∅) &&
      bool_decide (dom gR = smap ρ (dom pruned)) &&
      bool_decide (inputs gR = smap ρ (inputs g ∪ (kept ∩ of_type g (is_ty BbOut)))) &&       (* bb_output pins become inputs inst_pin *)
      bool_decide (outputs gR = smap ρ ((outputs g ∖ dropped) ∪ (kept ∩ of_type g (is_ty BbIn)))) &&  (* bb_input pins become outputs *)
